@@ -8,6 +8,8 @@
       ts           timestamp the harness put on the wire (0: null entry or nothing sent)
       view         the public `faultlog` view afterwards: <<<<idx, timestamp>>, ...>> in iteration order
       ilog         keys of the private _log (only for the model formula Readable)
+      le, lf, af   the other public projections afterwards: timestamp of latest_event / latest_fault (0: None),
+                   timestamps of active_faults in the order shown (<<>>: None or empty); -1 / <<>> if reading raised
       exc          "" or "<view>:<ExceptionType>" raised by faultlog/latest_event/latest_fault/
                    active_faults
       note         "" or a harness-level disagreement (wrong RQ index, coroutine state)        ]
@@ -21,6 +23,10 @@
      "clauses"  property clauses a-d (+ b from exc, + iteration order) -- the only source of VIOLATION
      "drift"    the recorded view differs from what the transcription (Repair / PushOnNew as
                 configured) predicts from the recorded pre-view -- never a verdict
+   Two callers: events r2start/r2step/r2end are a second get_faultlog(start, limit) call running on the same
+   FaultLog while the first (rstart/rstep/rend) is under way; rd2 is its read record (same operators).  It is
+   judged by the same clause c over ITS range when IT has returned (J20: the r2end node, where the harness has seen
+   the real call return) - "Converged" below is the clause for either caller.
    A disabled event or a carried timestamp that is not the simulated controller's is reported
    as clause "harness" (the check turns that into a machinery failure).                  *)
 EXTENDS FaultLog, Json, IOUtils
@@ -34,37 +40,60 @@ StartsC == 0..63
 LimitsC == 1..64
 KindsC  == AllKinds
 
-VARIABLES tid, fail, done
-tvars == <<tid, fail, done, map, log, clog, nts, reported, rd, nev, h, trips>>
+VARIABLES tid, fail, done, rd2
+tvars == <<tid, fail, done, rd2, map, log, clog, nts, reported, rd, nev, h, trips>>
 
 ViewFn(v) == [i \in {v[n][1] : n \in 1..Len(v)} |-> v[CHOOSE n \in 1..Len(v) : v[n][1] = i][2]]
 \* iteration order of the public dict: positions ascending (part of "ordered newest-first")
 IterOrdered(v) == \A n \in 1..(Len(v) - 1) : v[n][1] < v[n + 1][1]
 ToSet(q) == {q[n] : n \in 1..Len(q)}
-Order == <<"harness", "drift", "Raises", "NoDup", "Ordered", "IterOrder", "Subset", "Converged", "AnnounceShift">>
+Order == <<"harness", "drift", "Raises", "NoDup", "Ordered", "IterOrder", "Subset", "Views", "Converged", "AnnounceShift">>
 Join(q) == LET F[n \in 0..Len(q)] == IF n < 2 THEN "" ELSE F[n - 1] \o (IF n > 2 THEN "," ELSE "") \o q[n]
            IN F[Len(q)]                 \* q[2], q[3], ... as one string (cannot be line-wrapped by TLC)
 
-TInit == tid = 1 /\ fail = <<>> /\ done = {} /\ Init
+\* the second caller: the first caller's Eff cases over rd2; "ret" = it has returned (the observation point of c for
+\* this caller, lasting one node)
+R2Kinds == {"r2start", "r2step", "r2end"}
+Eff2(ev) ==
+  LET k == ev[1]  a == ev[2]  b == ev[3]  live == rd.st # "done" IN
+  CASE k = "r2start" -> [en |-> live /\ rd2.st \in {"idle", "ret"} /\ a \in StartsC /\ b \in LimitsC, s |-> S, clog |-> clog,
+                         nts |-> nts, ts |-> None, rd |-> rd, cnt |-> 1, rd2 |-> RdStart(a, b)]
+    [] k = "r2step"  -> LET dtm == CtlAt(clog, rd2.pos) IN
+                        [en |-> live /\ rd2.st = "run" /\ a = rd2.pos, s |-> ReadTurn(S, rd2.pos, dtm), clog |-> clog,
+                         nts |-> nts, ts |-> dtm, rd |-> rd, cnt |-> 0, rd2 |-> RdStepped(rd2, dtm)]
+    [] k = "r2end"   -> [en |-> rd2.st = "done", s |-> S, clog |-> clog, nts |-> nts, ts |-> None, rd |-> rd, cnt |-> 0,
+                         rd2 |-> [rd2 EXCEPT !.st = "ret"]]
+EffT(ev) ==
+  IF ev[1] \in R2Kinds THEN Eff2(ev)
+  ELSE LET f == Eff(ev) IN
+       [en |-> f.en /\ rd2.st # "done", s |-> f.s, clog |-> f.clog, nts |-> f.nts, ts |-> f.ts, rd |-> f.rd, cnt |-> f.cnt,
+        rd2 |-> IF rd2.st = "ret" THEN Idle ELSE IF ev[1] \in {"new", "clear"} THEN DirtyOf(rd2) ELSE rd2]
+Converged2 == (rd2.st = "ret" /\ ~rd2.dirty /\ rd2.lo = 0) => ConvergedRange(rd2)
+
+TInit == tid = 1 /\ fail = <<>> /\ done = {} /\ rd2 = Idle /\ Init
 
 TStep ==
   \E n \in ToSet(Nodes[tid].kids) :
      LET e  == Nodes[n]
          ev == <<e.k, e.a, e.b>>
-         f  == Eff(ev)
+         f  == EffT(ev)
          \* "code:..." = the real get_faultlog() left the read plan (returned early, asked for another index, ran on):
          \* that is the code's doing, judged by the clauses on the views it leaves - never a harness fault
-         codeNote  == e.note \in {"code:ended-early", "code:other-idx", "code:ran-late"}
+         \* ("code:not-asking": the call is neither done nor waiting for a reply to a request of its own)
+         codeNote  == e.note \in {"code:ended-early", "code:other-idx", "code:ran-late", "code:not-asking"}
          harnessOk == f.en /\ (codeNote \/ (e.ts = f.ts /\ e.note = ""))
      IN
      /\ tid' = n
-     /\ EnvStep(ev, f)
+     /\ EnvStepX(ev, f, IF e.note = "code:ran-late" THEN ToSet(f.clog) ELSE {})  \* (answered until the call returned)
      /\ map' = ViewFn(e.view) /\ log' = ToSet(e.ilog)
+     /\ rd2' = f.rd2
      /\ trips' = Trips'
      /\ LET bad == IF ~harnessOk THEN {"harness"}
                    ELSE IF Mode = "drift"
                         THEN (IF map' # f.s.m THEN {"drift"} ELSE {})
                         ELSE (trips' \ {"Readable"})
+                             \cup (IF ~Converged2' THEN {"Converged"} ELSE {})
+                             \cup (IF e.exc = "" /\ ~ViewsAgree(Range(map'), e.le, e.lf, e.af) THEN {"Views"} ELSE {})
                              \cup (IF e.exc # "" THEN {"Raises"} ELSE {})
                              \cup (IF ~IterOrdered(e.view) THEN {"IterOrder"} ELSE {})
             new    == bad \ done
